@@ -425,7 +425,8 @@ class Filterbank(ABC):
         if ichan >= self.header.nchans or ichan < 0:
             msg = f"Selected channel {ichan} out of range."
             raise ValueError(msg)
-        tim_ar = np.empty(self.header.nsamples, dtype=np.float32)
+        tim_len = (self.header.nsamples - start) if nsamps is None else nsamps
+        tim_ar = np.empty(tim_len, dtype=np.float32)
         for nsamps_r, ii, data in self.read_plan(
             gulp=gulp,
             start=start,
@@ -433,8 +434,11 @@ class Filterbank(ABC):
             **plan_kwargs,
         ):
             data_2d = data.reshape(nsamps_r, self.header.nchans)
-            tim_ar[ii * gulp : (ii + 1) * gulp] = data_2d[:, ichan]
-        return TimeSeries(tim_ar, self.header.new_header({"dm": 0, "nchans": 1}))
+            tim_ar[ii * gulp : ii * gulp + nsamps_r] = data_2d[:, ichan]
+        return TimeSeries(
+            tim_ar,
+            self.header.new_header({"dm": 0, "nchans": 1, "nsamples": tim_len}),
+        )
 
     def invert_freq(
         self,
